@@ -88,6 +88,16 @@ def run(tier):
                     fo.write(line)
         c.notes.append("spec->code: %d behaviours from TLC, every %d-th executed" % (n[0], stride))
         beh = sampled
+    # unbounded-length argument (Apalache): Conservation / Bounded / UntrackedZero as an INDUCTIVE invariant of the recorder
+    # (Init => IndInv; IndInv /\ Next => IndInv'); the double-counting recorder must violate it (self-test)
+    if vlib.run_apalache("StatsInd.tla", "ConstInit", "Init", "IndInv", 0, "C17/apalache") != "ok":
+        raise vlib.ToolError("StatsInd.tla: Init does not establish IndInv")
+    if vlib.run_apalache("StatsInd.tla", "ConstInit", "IndInit", "IndInv", 1, "C17/apalache") != "ok":
+        raise vlib.ToolError("StatsInd.tla: IndInv is not inductive")
+    if vlib.run_apalache("StatsInd.tla", "ConstInitWrong", "IndInit", "IndInv", 1, "C17/apalache") != "violation":
+        raise vlib.ToolError("StatsInd.tla self-test: the double-counting recorder should break the inductive invariant")
+    c.models.append({"model": "StatsInd.tla (Apalache 0.58): IndInv (Conservation, Bounded, UntrackedZero) inductive for 4 addresses, limits 1..3, any number of events",
+                     "obligations": 2, "discharged": 2, "self_test": "double-counting variant violates the step"})
     t1 = vlib.workfile("C17", "replay_trace.ndjson")
     out = vlib.run_harness(["stats", "replay", "--in", beh, "--out", t1], timeout=3000)
     c.behaviours_replayed = out[-1]["executions"] if out else 0
@@ -119,5 +129,5 @@ def run(tier):
 
 
 def replay(path):
-    print(open(path).read())
-    return 0
+    from lib import vlib
+    return vlib.replay_file(path, run)
